@@ -22,6 +22,7 @@ const FUNCS: &[&str] = &[
     "(x => deep(x))", "range", "(x => x + \"s\")", "((x, i) => fact(i))",
     // predicates that do not return a boolean for some element (always run, see ALWAYS)
     "(x => if x > 1 then true else null)", "(x => null)", "(x => x.active)", "(x => if x == 2 then 0 else true)", "(x => \"yes\")",
+    "(x => (t = x * 2) + t)", "((x, i) => [u = x + i, u][1])", "(x => {k: (w = x)}.k == w)",
     // flexible-arity built-ins as callbacks (the index is passed to whatever accepts two arguments)
     "round", "min", "max", "((a, b?) => b)",
 ];
